@@ -58,6 +58,83 @@ def admits(v: ast.AST, tname: str) -> bool:
     return False
 
 
+def undefined_variable_rules(ctx, m, gcc, r5: str, r8: str) -> None:
+    """R5 + R8 of C04 (an undefined variable is an error; interpolate is a fixpoint), parametrised on the rule ids so
+    that C11 can re-use the analysis for its 'undefined variable => rejected' clause."""
+    # ---------------- R5 -------------------------------------------------------------------------------
+    it = m.func("FlowIR.interpolate")
+    ctx.analysed(it)
+    c5 = CFG(it)
+    ign = match.test_nodes(c5, lambda t: match.polarity(t, lambda e: isinstance(e, ast.Name) and e.id == "ignore_errors"))
+    prim = match.test_nodes(c5, lambda t: match.polarity(t, lambda e: isinstance(e, ast.Name) and e.id == "is_primitive"))
+    handlers = [h for h in ast.walk(it) if isinstance(h, ast.ExceptHandler) and h.type is not None and "FlowIRVariableUnknown" in source.src(h.type)
+                and source.enclosing_def(h) is it]
+    ctx.floor(r5, len(handlers), 2, "FlowIRVariableUnknown handlers in interpolate")
+    for h in handlers:
+        bad = handler_swallow_paths(c5, h, ign + prim)
+        ctx.ob(r5, h, not bad,
+               "an unknown variable is swallowed only under ignore_errors or in primitive mode" if not bad else
+               "this handler can swallow FlowIRVariableUnknown without ignore_errors / primitive mode (continues at line %d): "
+               "the reference to an undefined variable is left in place instead of being reported" % bad[0].lineno)
+        # in primitive mode only names in safe_to_be_unknown
+        prim_in_h = [(n, l) for n, l in prim if any(n.ast is x for x in ast.walk(h))]
+        for (pn, pl) in prim_in_h:
+            succ = [mm for (mm, l2) in pn.succ if l2 == pl]
+            okp = bool(succ) and succ[0].kind == "test" and "safe_to_be_unknown" in source.src(succ[0].ast)
+            ctx.ob(r5, pn.ast, okp,
+                   "primitive mode tolerates only variables in safe_to_be_unknown" if okp else
+                   "primitive mode tolerates any unknown variable (no membership test in safe_to_be_unknown)")
+    stbu = match.assigned_value(it, "safe_to_be_unknown")
+    ok = len(stbu) == 1 and isinstance(stbu[0], ast.IfExp) and isinstance(stbu[0].test, ast.Name) and stbu[0].test.id == "is_primitive" \
+        and source.src(stbu[0].body).replace('"', "'") in ("set(['replica'])", "{'replica'}") and source.src(stbu[0].orelse) in ("set()",)
+    ctx.ob(r5, stbu[0] if stbu else it, ok, "only 'replica' may stay unknown, and only for primitive graphs" if ok else
+           "safe_to_be_unknown is no longer {'replica'} for primitive graphs / empty otherwise")
+    # ---------------- R8 -------------------------------------------------------------------------------
+    ust = match.test_nodes(c5, lambda t: "T" if (match.compare_parts(t) and isinstance(match.compare_parts(t)[0], ast.Name)
+                                                 and match.compare_parts(t)[0].id == "use_symbol_table" and isinstance(match.compare_parts(t)[1], ast.Is)
+                                                 and isinstance(match.compare_parts(t)[2], ast.Constant) and match.compare_parts(t)[2].value is False) else None)
+    adv = [n for n in c5.nodes if n.kind == "stmt" and isinstance(n.ast, (ast.Assign, ast.AugAssign))
+           and any(isinstance(t, ast.Name) and t.id == "search_from" for t in (n.ast.targets if isinstance(n.ast, ast.Assign) else [n.ast.target]))
+           and not (isinstance(n.ast, ast.Assign) and isinstance(n.ast.value, ast.Constant) and n.ast.value.value == 0)]
+    ctx.floor(r8, len(adv), 2, "advances of the scan position in interpolate")
+    tol = ign + prim + ust
+    for a in adv:
+        ok_guard = bool(tol) and match.only_via_edges(c5, a, tol)
+        v = a.ast.value
+        ok_val = isinstance(a.ast, ast.Assign) and isinstance(v, ast.BinOp) and isinstance(v.op, ast.Add) \
+            and source.src(v.left) == "match.start()" and isinstance(v.right, ast.Constant) and v.right.value == 1
+        ctx.ob(r8, a.ast, ok_guard and ok_val,
+               "the scan position moves one character past a reference that is deliberately left unresolved" if ok_guard and ok_val else
+               ("the scan position is advanced after a successful substitution / without a tolerance guard: a reference that only "
+                "comes into being through the substitution and starts to its left (%%(%%(mode)s_opts)s -> %%(fast_opts)s) is never "
+                "looked at again - a defined variable stays in the text and an undefined one is not reported" if not ok_guard else
+                "the scan position jumps by %s instead of one character: references inside the skipped text are not resolved" % short(v, 40)),
+               construct=short(a.ast, 60) + " <- tolerance guard, +1")
+    # the loops end only when a scan from the current position finds nothing
+    loops = [n for n in source.walk_own(it) if isinstance(n, ast.While) and isinstance(n.test, ast.Constant) and n.test.value is True]
+    for lp in loops:
+        brk = [b for b in ast.walk(lp) if isinstance(b, ast.Break)]
+        okb = bool(brk) and all(isinstance(source.parent(b), ast.If) and source.src(source.parent(b).test) == "not matches" for b in brk)
+        ctx.ob(r8, lp, okb, "the substitution loop ends only when no reference is found" if okb else
+               "the substitution loop of interpolate can end while references remain", construct="while True: ... if not matches: break")
+
+    fi = m.func("FlowIR.fill_in")
+    ctx.analysed(fi)
+    c6 = CFG(fi)
+    ign6 = match.test_nodes(c6, lambda t: match.polarity(t, lambda e: isinstance(e, ast.Name) and e.id == "ignore_errors"))
+    for h in [h for h in ast.walk(fi) if isinstance(h, ast.ExceptHandler)]:
+        bad = handler_swallow_paths(c6, h, ign6)
+        ctx.ob(r5, h, not bad, "fill_in re-raises unless ignore_errors" if not bad else
+               "fill_in swallows the unknown-variable error without ignore_errors")
+    for c in source.calls_in(gcc):
+        if last_attr(c) == "fill_in":
+            kw = {k.arg: k.value for k in c.keywords}
+            ok = "ignore_errors" not in kw or (isinstance(kw["ignore_errors"], ast.Constant) and kw["ignore_errors"].value is False)
+            ctx.ob(r5, c, ok, "the resolver calls fill_in without ignore_errors" if ok else
+                   "get_component_configuration resolves with ignore_errors set: undefined variables are left in place")
+
+
+
 def run(ctx) -> None:
     ctx.explanation = (
         "Order of the variable layers (sequence of variables.update calls traced to their accessors) and of the option "
@@ -273,77 +350,7 @@ def run(ctx) -> None:
     ctx.ob("C04.R4-user-variables", init, ok, "user variables are patched in before the description is copied/replicated" if ok else
            "the unreplicated copy is taken before user variables are patched in", construct="_patch_in_variable_files before self._unreplicated = copy()")
 
-    # ---------------- R5 -------------------------------------------------------------------------------
-    it = m.func("FlowIR.interpolate")
-    ctx.analysed(it)
-    c5 = CFG(it)
-    ign = match.test_nodes(c5, lambda t: match.polarity(t, lambda e: isinstance(e, ast.Name) and e.id == "ignore_errors"))
-    prim = match.test_nodes(c5, lambda t: match.polarity(t, lambda e: isinstance(e, ast.Name) and e.id == "is_primitive"))
-    handlers = [h for h in ast.walk(it) if isinstance(h, ast.ExceptHandler) and h.type is not None and "FlowIRVariableUnknown" in source.src(h.type)
-                and source.enclosing_def(h) is it]
-    ctx.floor("C04.R5-undefined-variable-is-error", len(handlers), 2, "FlowIRVariableUnknown handlers in interpolate")
-    for h in handlers:
-        bad = handler_swallow_paths(c5, h, ign + prim)
-        ctx.ob("C04.R5-undefined-variable-is-error", h, not bad,
-               "an unknown variable is swallowed only under ignore_errors or in primitive mode" if not bad else
-               "this handler can swallow FlowIRVariableUnknown without ignore_errors / primitive mode (continues at line %d): "
-               "the reference to an undefined variable is left in place instead of being reported" % bad[0].lineno)
-        # in primitive mode only names in safe_to_be_unknown
-        prim_in_h = [(n, l) for n, l in prim if any(n.ast is x for x in ast.walk(h))]
-        for (pn, pl) in prim_in_h:
-            succ = [mm for (mm, l2) in pn.succ if l2 == pl]
-            okp = bool(succ) and succ[0].kind == "test" and "safe_to_be_unknown" in source.src(succ[0].ast)
-            ctx.ob("C04.R5-undefined-variable-is-error", pn.ast, okp,
-                   "primitive mode tolerates only variables in safe_to_be_unknown" if okp else
-                   "primitive mode tolerates any unknown variable (no membership test in safe_to_be_unknown)")
-    stbu = match.assigned_value(it, "safe_to_be_unknown")
-    ok = len(stbu) == 1 and isinstance(stbu[0], ast.IfExp) and isinstance(stbu[0].test, ast.Name) and stbu[0].test.id == "is_primitive" \
-        and source.src(stbu[0].body).replace('"', "'") in ("set(['replica'])", "{'replica'}") and source.src(stbu[0].orelse) in ("set()",)
-    ctx.ob("C04.R5-undefined-variable-is-error", stbu[0] if stbu else it, ok, "only 'replica' may stay unknown, and only for primitive graphs" if ok else
-           "safe_to_be_unknown is no longer {'replica'} for primitive graphs / empty otherwise")
-    # ---------------- R8 -------------------------------------------------------------------------------
-    ust = match.test_nodes(c5, lambda t: "T" if (match.compare_parts(t) and isinstance(match.compare_parts(t)[0], ast.Name)
-                                                 and match.compare_parts(t)[0].id == "use_symbol_table" and isinstance(match.compare_parts(t)[1], ast.Is)
-                                                 and isinstance(match.compare_parts(t)[2], ast.Constant) and match.compare_parts(t)[2].value is False) else None)
-    adv = [n for n in c5.nodes if n.kind == "stmt" and isinstance(n.ast, (ast.Assign, ast.AugAssign))
-           and any(isinstance(t, ast.Name) and t.id == "search_from" for t in (n.ast.targets if isinstance(n.ast, ast.Assign) else [n.ast.target]))
-           and not (isinstance(n.ast, ast.Assign) and isinstance(n.ast.value, ast.Constant) and n.ast.value.value == 0)]
-    ctx.floor("C04.R8-fixpoint-rescans", len(adv), 2, "advances of the scan position in interpolate")
-    tol = ign + prim + ust
-    for a in adv:
-        ok_guard = bool(tol) and match.only_via_edges(c5, a, tol)
-        v = a.ast.value
-        ok_val = isinstance(a.ast, ast.Assign) and isinstance(v, ast.BinOp) and isinstance(v.op, ast.Add) \
-            and source.src(v.left) == "match.start()" and isinstance(v.right, ast.Constant) and v.right.value == 1
-        ctx.ob("C04.R8-fixpoint-rescans", a.ast, ok_guard and ok_val,
-               "the scan position moves one character past a reference that is deliberately left unresolved" if ok_guard and ok_val else
-               ("the scan position is advanced after a successful substitution / without a tolerance guard: a reference that only "
-                "comes into being through the substitution and starts to its left (%%(%%(mode)s_opts)s -> %%(fast_opts)s) is never "
-                "looked at again - a defined variable stays in the text and an undefined one is not reported" if not ok_guard else
-                "the scan position jumps by %s instead of one character: references inside the skipped text are not resolved" % short(v, 40)),
-               construct=short(a.ast, 60) + " <- tolerance guard, +1")
-    # the loops end only when a scan from the current position finds nothing
-    loops = [n for n in source.walk_own(it) if isinstance(n, ast.While) and isinstance(n.test, ast.Constant) and n.test.value is True]
-    for lp in loops:
-        brk = [b for b in ast.walk(lp) if isinstance(b, ast.Break)]
-        okb = bool(brk) and all(isinstance(source.parent(b), ast.If) and source.src(source.parent(b).test) == "not matches" for b in brk)
-        ctx.ob("C04.R8-fixpoint-rescans", lp, okb, "the substitution loop ends only when no reference is found" if okb else
-               "the substitution loop of interpolate can end while references remain", construct="while True: ... if not matches: break")
-
-    fi = m.func("FlowIR.fill_in")
-    ctx.analysed(fi)
-    c6 = CFG(fi)
-    ign6 = match.test_nodes(c6, lambda t: match.polarity(t, lambda e: isinstance(e, ast.Name) and e.id == "ignore_errors"))
-    for h in [h for h in ast.walk(fi) if isinstance(h, ast.ExceptHandler)]:
-        bad = handler_swallow_paths(c6, h, ign6)
-        ctx.ob("C04.R5-undefined-variable-is-error", h, not bad, "fill_in re-raises unless ignore_errors" if not bad else
-               "fill_in swallows the unknown-variable error without ignore_errors")
-    for c in source.calls_in(gcc):
-        if last_attr(c) == "fill_in":
-            kw = {k.arg: k.value for k in c.keywords}
-            ok = "ignore_errors" not in kw or (isinstance(kw["ignore_errors"], ast.Constant) and kw["ignore_errors"].value is False)
-            ctx.ob("C04.R5-undefined-variable-is-error", c, ok, "the resolver calls fill_in without ignore_errors" if ok else
-                   "get_component_configuration resolves with ignore_errors set: undefined variables are left in place")
+    undefined_variable_rules(ctx, m, gcc, "C04.R5-undefined-variable-is-error", "C04.R8-fixpoint-rescans")
 
     # ---------------- R6 -------------------------------------------------------------------------------
     cct = m.func("FlowIR.convert_component_types")
